@@ -631,8 +631,9 @@ def refine_droplet(
         vmax = np.max(data_mask)
     vrng = vmax - vmin
 
-    if adjust_values:
-        # fit intensities in addition to all droplet parameters
+    if adjust_values and vrng != 0:
+        # fit intensities in addition to all droplet parameters (this is not possible
+        # when the image is constant in the fitted region since the bounds collapse)
 
         # add vmin and vrng as separate fitting parameters
         parameters = np.r_[data_flat[free], vmin, vrng]
